@@ -516,7 +516,19 @@ def extractPatchesAroundLandmarks (pix : NDArr α) (sampler : Nat → Mode → N
 def Np.intDivE (a b : Nat) : Except Err Nat := if b = 0 then .error .zerodiv else .ok (a / b)
 
 /-! a list of patch images (each its pixel array): the attributes of the first entry (IndexError on an empty list) -/
+/-! a patch image (its pixel array): `.n_channels`, `.height`, `.width` -/
+namespace PImg
+def nChannels (p : NDArr α) : Nat := p.shape.headD 0
+def height (p : NDArr α) : Nat := p.shape.getD (p.shape.length - 2) 0
+def width (p : NDArr α) : Nat := p.shape.getD (p.shape.length - 1) 0
+end PImg
+
 namespace PList
+/-- `patches_list[0]` -/
+def head (l : List (NDArr α)) : Except Err (NDArr α) :=
+  match l with
+  | [] => .error .index
+  | p :: _ => .ok p
 def nChannels0 (l : List (NDArr α)) : Except Err Nat :=
   match l with
   | [] => .error .index
@@ -566,6 +578,17 @@ def convertPatchesList (dflt : α) (patchesList : List (NDArr α)) (nCenter : Na
         (PList.width0 patchesList).bind fun w =>
           (Py.forLoop ((Except.ok (full [nCenter, k, C, h, w] dflt) : Except Err (NDArr α)), 0) (List.range nCenter)
             fun st p => Py.forLoop st (List.range k) (convertStep dflt patchesList p)).1
+
+/-- the same function with the index of the list entry COMPUTED (`patches_list[p * n_offsets + o]`) instead of
+counted by a running `total_index`: an equivalent spelling of the loops (Lemmas/C13Src.lean:
+`convertPatchesListIdx_eq`, for all arguments) -/
+def convertPatchesListIdx (dflt : α) (patchesList : List (NDArr α)) (nCenter : Nat) : Except Err (NDArr α) :=
+  (Np.intDivE patchesList.length nCenter).bind fun k =>
+    (PList.nChannels0 patchesList).bind fun C =>
+      (PList.height0 patchesList).bind fun h =>
+        (PList.width0 patchesList).bind fun w =>
+          Py.forLoop (Except.ok (full [nCenter, k, C, h, w] dflt) : Except Err (NDArr α)) (List.range nCenter)
+            fun A p => Py.forLoop A (List.range k) fun A o => Np.assignEntry dflt A p o patchesList (p * k + o)
 
 namespace PatchArg
 def isList : PatchArg α → Bool
